@@ -1,6 +1,6 @@
 """C10 - union / intersection / difference compute the mathematical result."""
 from .. import engine
-from ..rules import setops, setwiring
+from ..rules import setops, setwiring, errswallow
 from . import _setop_common as common
 
 ENTRIES = ("difference", "union", "intersection")
@@ -9,12 +9,16 @@ ENTRIES = ("difference", "union", "intersection")
 def tu_check(tu):
     r = setwiring.c_rules(tu)
     r["tables"] = common.tables_for_tu(tu, ENTRIES)
+    es = errswallow.analyse_tu(tu)
+    r["findings"] = r["findings"] + es["findings"]
+    r["stats"]["guarded_clears"] = es["stats"]["guarded_clears"]
+    r["stats"]["clears"] = sum(es["stats"].values())
     return r
 
 
 def run(tier="quick", seed=0, use_cache=True):
     res = engine.Result("C10")
-    res.rules = ["SETOP-TABLE", "OP-WIRING", "ALIAS-GUARD", "FRESH-ONLY", "OPERAND-ADAPT", "INPLACE-MONOTONE", "INPLACE-OPERAND", "INPLACE-REPLACE"]
+    res.rules = ["SETOP-TABLE", "OP-WIRING", "ALIAS-GUARD", "FRESH-ONLY", "OPERAND-ADAPT", "INPLACE-MONOTONE", "INPLACE-OPERAND", "INPLACE-REPLACE", "ERR-SWALLOW"]
     res.exhaustive = True
     res.explanation = (
         "Decision-table extraction for difference / union / intersection: for "
@@ -35,7 +39,7 @@ def run(tier="quick", seed=0, use_cache=True):
         "toggling, C x22 and Python); the Python in-place operators consume "
         "their operand exactly once and never through a membership test "
         "(INPLACE-OPERAND: one-shot iterators, str); the rebuild step of C &= "
-        "dominates every success result (INPLACE-REPLACE). Assumes container cursors yield strictly "
+        "dominates every success result (INPLACE-REPLACE); every PyErr_Clear() of the translation unit is dominated by a test of the exception's class whose failing edge cannot reach it, or is followed by the raising of another exception on every path, or belongs to an accepted protocol idiom (ERR-SWALLOW) - a cursor that clears unguarded ends the iteration silently and the operation returns a truncated result. Assumes container cursors yield strictly "
         "increasing keys (C01); result equality on concrete operands is not "
         "decided.")
     res.assumptions = ["container cursors yield strictly increasing keys (C01)",
@@ -48,10 +52,12 @@ def run(tier="quick", seed=0, use_cache=True):
     oo = out["OO"]["stats"]
     res.floor("operator slots checked (OO)", oo["slots"], 16)
     res.floor("in-place alias guards (OO)", oo["inplace"], 3)
-    res.floor("mutations of self inside loops of the in-place operators (OO)", oo.get("inplace_loop_mutations", 4), 6)
+    res.floor("mutations of self inside loops of the in-place operators (OO)", oo.get("inplace_loop_mutations", 0), 4)
     res.count("INPLACE-MONOTONE", sum(r["stats"].get("inplace_loop_mutations", 0) for r in out.values()))
     res.floor("success results of the &= slot functions (OO)", oo.get("inplace_and_results", 0), 2)
     res.count("INPLACE-REPLACE", sum(r["stats"].get("inplace_and_results", 0) for r in out.values()))
+    res.floor("class-guarded PyErr_Clear sites (OO)", oo["guarded_clears"], 10)
+    res.count("ERR-SWALLOW", sum(r["stats"]["clears"] for r in out.values()))
     res.floor("translation units", len(out), 22)
     res.count("OP-WIRING", sum(r["stats"]["slots"] for r in out.values()))
     res.count("ALIAS-GUARD", sum(r["stats"]["inplace"] for r in out.values()))
